@@ -18,10 +18,10 @@ type Violation struct {
 type CaseResult struct {
 	Prop       string                 `json:"prop"`
 	Case       int                    `json:"case"`
-	Desc       string                 `json:"desc"`            // scenario descriptor
-	NonTrivial bool                   `json:"nontrivial"`      // by the property's stated rule
-	DistinctID string                 `json:"distinct"`        // what makes this case distinct (e.g. delivery-sequence hash)
-	Steps      int                    `json:"steps"`           // logical steps simulated
+	Desc       string                 `json:"desc"`             // scenario descriptor
+	NonTrivial bool                   `json:"nontrivial"`       // by the property's stated rule
+	DistinctID string                 `json:"distinct"`         // what makes this case distinct (e.g. delivery-sequence hash)
+	Steps      int                    `json:"steps"`            // logical steps simulated
 	Faults     map[string]int         `json:"faults,omitempty"` // fault kinds that actually fired
 	Probes     map[string]int         `json:"probes,omitempty"`
 	States     []string               `json:"states,omitempty"` // state digests reached
@@ -103,13 +103,15 @@ type PropDef struct {
 	RealStub    map[string][]string
 	// CasesPerWorkerChunk lets expensive properties hand out work one case at a time.
 	Expensive bool
+	// External, when set, names the binary that executes this property's cases (worker protocol).
+	External *External
 	// Extra is called by the driver after all cases to add property-specific coverage keys.
 	Extra func(agg map[string]interface{})
 }
 
 var registry = map[string]*PropDef{}
 
-func Register(p *PropDef) { registry[p.ID] = p }
+func Register(p *PropDef)    { registry[p.ID] = p }
 func Get(id string) *PropDef { return registry[id] }
 func IDs() []string {
 	var out []string
@@ -118,4 +120,11 @@ func IDs() []string {
 	}
 	sort.Strings(out)
 	return out
+}
+
+// External describes a worker binary other than the driver itself.
+type External struct {
+	Bin  string
+	Args []string
+	Env  string // environment variable carrying "worker,tier,seed" / "case,tier,seed,n" / "replay,path"
 }
